@@ -86,6 +86,16 @@ def always_held(rs, relevant):
     return "+".join(sorted(common)) or "-"
 
 
+SEVERITY = {"alias": 0, "len": 1, "read": 2, "index": 3, "range": 4, "write": 5}
+
+
+def worst_kind(rs):
+    """how one side of an edge uses the location at worst: write > range (iteration) > index > read (the value
+    escapes) > len > alias.  Part of the signature of a known finding: an observer that only took len() of a map
+    and now iterates it is a different finding, although entry, field and locks are the same."""
+    return max((r.get("kind") or ("write" if r["write"] else "read") for r in rs), key=lambda k: SEVERITY.get(k, 2))
+
+
 def table_edges(table, ev):
     """conflict edges of the table: (entry, entry, field) -> {"rps": row pairs that share no lock, "locks": "A|B"}"""
     rows = table["rows"]
@@ -99,6 +109,13 @@ def table_edges(table, ev):
             ra, rb = rb, ra
         edges.setdefault(edge(ra["entry"], rb["entry"], ra["field"]), {"rps": []})["rps"].append((ra, rb))
     for (e1, e2, f), d in edges.items():
+        sev = lambda r: SEVERITY.get(r.get("kind") or "read", 2)
+        d["rps"].sort(key=lambda pr: -(sev(pr[0]) + sev(pr[1])))       # the most telling pair first
+        if e1 == e2:
+            both = [r for pr in d["rps"] for r in pr]
+            d["kinds"] = worst_kind(both) + "|" + worst_kind(both)
+        else:
+            d["kinds"] = worst_kind([pr[0] for pr in d["rps"]]) + "|" + worst_kind([pr[1] for pr in d["rps"]])
         if e1 == e2:
             both = [r for pr in d["rps"] for r in pr]
             d["locks"] = always_held(both, taken[(e1, f)]) + "|" + always_held(both, taken[(e1, f)])
@@ -324,23 +341,24 @@ def check(run):
         raise C.TieBroken("the race harness produced no scenario")
 
     def side(r):
-        return {"entry": r["entry"], "write": r["write"], "held": r["held"], "sites": r["sites"][:3]}
+        return {"entry": r["entry"], "write": r["write"], "kind": r.get("kind"), "held": r["held"], "sites": r["sites"][:3]}
 
     # every conflict edge: known finding, or violation (with the race report as replay when exhibited)
     edge_report = []
     for (e1, e2, field), d in edges.items():
-        rps, locks = d["rps"], d["locks"]
-        edge_report.append({"entry": e1, "against": e2, "field": field, "locks": locks, "exhibited": (e1, e2, field) in confirmed})
-        sig = {"kind": "unprotected-access", "entry": e1, "against": e2, "field": field, "locks": locks}
+        rps, locks, kinds = d["rps"], d["locks"], d["kinds"]
+        edge_report.append({"entry": e1, "against": e2, "field": field, "locks": locks, "kinds": kinds, "exhibited": (e1, e2, field) in confirmed})
+        sig = {"kind": "unprotected-access", "entry": e1, "against": e2, "field": field, "locks": locks, "kinds": kinds}
         ra, rb = rps[0]
-        case = {"entry": e1, "against": e2, "field": field, "locks": locks, "row_pairs": len(rps), "a": side(ra), "b": side(rb),
+        case = {"entry": e1, "against": e2, "field": field, "locks": locks, "kinds": kinds, "row_pairs": len(rps), "a": side(ra), "b": side(rb),
                 "seed": run.seed * 1000, "iter": n, "race_report": confirmed.get((e1, e2, field))}
         def desc(r):
             st = r["sites"][0]
             chain = [c.split("/")[-1] for c in (st.get("chain") or [])]
             via = " (call path: %s)" % " > ".join(chain[-6:]) if len(chain) > 1 else ""
             locks = [h["lock"] + ("" if not h["cond"] else " (if %s)" % h["cond"]) for h in r["held"]] or "no lock"
-            return "%s %s it at %s:%d%s holding %s" % (r["entry"], "writes" if r["write"] else "reads", st["file"], st["line"], via, locks)
+            verb = {"write": "writes", "range": "iterates over", "index": "indexes", "len": "takes len() of", "alias": "hands out"}.get(r.get("kind"), "reads")
+            return "%s %s it at %s:%d%s holding %s" % (r["entry"], verb, st["file"], st["line"], via, locks)
         what = "%s: %s; %s -- no common lock held exclusively by either side" % (field, desc(ra), desc(rb))
         if (e1, e2, field) in confirmed:
             run.failing(sig, [case], what + "; exhibited by the race detector", theorem="Lockset.Model.protected_except_all on gen/Accesses.v + race harness")
@@ -421,7 +439,8 @@ def replay(run, path):
         if w in confirmed:
             print("\n".join(confirmed[w].split("\n")[:16]))
         if w in edges or w in confirmed:
-            sig = {"kind": "unprotected-access", "entry": w[0], "against": w[1], "field": w[2], "locks": edges[w]["locks"] if w in edges else "?"}
+            sig = {"kind": "unprotected-access", "entry": w[0], "against": w[1], "field": w[2], "locks": edges[w]["locks"] if w in edges else "?",
+                   "kinds": edges[w]["kinds"] if w in edges else "?"}
             run.failing(sig, [c for c in rp["cases"] if c.get("field") and edge(c.get("entry"), c.get("against"), c.get("field")) == w],
                         "%s / %s / %s has no common lock in the regenerated table" % w,
                         found_input=(w in confirmed) or C.match_known(PID, sig) is not None,
